@@ -88,6 +88,12 @@ fn run(input: RunInput) -> ScenFuture {
         // a small cap on connections being established, reached by the dials below in some runs
         let cap = w.flag("small_connecting_cap", 0.4).then(|| w.param("connecting_cap", 1, 3) as usize);
         cfg.max_concurrent_outstanding_connecting_connections = cap;
+        // a burst of API calls in the very instant of the shutdown, more than the connection
+        // manager's mailbox holds: the shutdown request has to wait for room like any other
+        let burst = w.flag("connect_burst_fills_the_mailbox", 0.3) && mode <= 1;
+        if burst {
+            cfg.connection_manager_channel_capacity = Some(w.param("mailbox_capacity", 1, 3) as usize);
+        }
         cfg.connectivity_check_interval_ms = Some(100);
         cfg.connection_backoff_ms = Some(100);
         cfg.max_connection_backoff_ms = Some(500);
@@ -242,6 +248,18 @@ fn run(input: RunInput) -> ScenFuture {
                         }
                     }));
                 }
+                if burst {
+                    for k in 0..r.gen_range(3..9u8) {
+                        let n1 = n0.clone();
+                        track("burst-connect".into(), Box::pin(async move { n1.connect(addr(230 + k)).await.map(|_| ()).map_err(|e| format!("{e:#}")) }));
+                    }
+                    // let the burst run: which of those calls and of the manager's own task are
+                    // polled before the shutdown call below is the schedule's choice
+                    for _ in 0..r.gen_range(0..3) {
+                        tokio::task::yield_now().await;
+                    }
+                    w.probe("shutdown-into-a-connect-burst");
+                }
                 let second = (mode == 1).then(|| {
                     let n1 = n0.clone();
                     tokio::spawn(async move { tokio::time::timeout(Duration::from_secs(120), n1.shutdown()).await })
@@ -260,8 +278,13 @@ fn run(input: RunInput) -> ScenFuture {
                 if let Some(h) = second {
                     match tokio::time::timeout(Duration::from_secs(5), h).await {
                         Ok(Ok(Ok(r2))) => {
-                            // exactly one of the two concurrent shutdowns may report Ok; the other gets Ok or an error, never a hang
-                            let _ = r2;
+                            // one of the two concurrent shutdowns reports Ok - whichever request
+                            // the connection manager got to first; the other gets Ok or an error
+                            // (its request is dropped with the mailbox), never a hang
+                            if r2.is_ok() && matches!(shutdown_result, Some(Err(_))) {
+                                shutdown_result = Some(Ok(()));
+                                w.probe("the-other-concurrent-shutdown-was-served");
+                            }
                         }
                         Ok(Ok(Err(_))) | Err(_) => w.violate("second-shutdown-hangs", "concurrent", "a second concurrent shutdown() never returned".to_string()),
                         Ok(Err(_)) => w.violate("shutdown-task-panicked", "concurrent", "second shutdown panicked".to_string()),
